@@ -276,6 +276,23 @@ func main() {
 			}
 		}
 		o.Stat("random_values_"+f.name, nRandom)
+		if f.name == "cbor" {
+			// semantic tags: `torepr` of a tagged item is the decode tree (outside the value model), so only the
+			// truncation rule is checked: every strict prefix of tag(s) + value must be a decode error
+			for i := 0; i < nRandom/3+8; i++ {
+				vr := r.Fork()
+				v := genValue(vr, f.caps, 1)
+				enc := f.enc(nil, v, &picker{r: vr, first: -1})
+				for j := vr.Range(1, 3); j > 0; j-- {
+					tag := []uint64{0, 1, 2, 23, 24, 55799, 1 << 40}[vr.Intn(7)]
+					enc = append(cbHead(nil, 6, tag, &picker{r: vr, first: -1}), enc...)
+				}
+				src := v.String()
+				for k := 0; k < len(enc) && k < truncLimit; k++ {
+					cs = append(cs, &tcase{format: "cbor", in: enc[:k], kind: "trunc", src: src})
+				}
+			}
+		}
 	}
 	if len(want) == 0 || want["json"] || want["jsonl"] {
 		w2 := want
